@@ -54,17 +54,25 @@ def java_tlc(module_dir, module, cfg, metadir, env_extra=None, workers=1, xmx="3
     shutil.rmtree(metadir, ignore_errors=True)
     return rc, out
 
-VIOL_RE = re.compile(r'<<"VIOL", (\d+), "([^"]*)", (\d+), "([^"]*)", "([^"]*)">>')
+VIOL_RE = re.compile(r'<<\s*"VIOL",\s*(\d+),\s*"([^"]*)",\s*(\d+),\s*"([^"]*)",\s*"((?:[^"\\]|\\.)*)"\s*>>')
 HITS_RE = re.compile(r'<<"HITS", "(.*)">>')
 STAT_RE = re.compile(r'(\d+) states generated, (\d+) distinct states found')
+
+def parse_viols(out):
+    """every VIOL tuple TLC printed must be parsed: a mismatch is a tool error, never silence"""
+    flat = re.sub(r'\n\s+', ' ', out)      # TLC wraps long tuples over several lines
+    viols = [dict(line=int(m.group(1)), scn=m.group(2), i=int(m.group(3)), tag=m.group(4), finding=m.group(5))
+             for m in VIOL_RE.finditer(flat)]
+    if len(viols) != flat.count('"VIOL"'):
+        raise ToolError("could not parse every VIOL line TLC printed (%d of %d)" % (len(viols), flat.count('"VIOL"')))
+    return viols
 
 def run_trace(prop, trace_path, tag):
     """Validate one recorded trace against Props.tla for property `prop`."""
     metadir = os.path.join(WORK, "tlc_%s_%s_%d" % (prop, tag, os.getpid()))
     rc, out = java_tlc(os.path.join(SPEC, "trace"), "Trace.tla", "Trace.cfg", metadir,
                        env_extra={"TRACE": trace_path, "ONLY": prop})
-    viols = [dict(line=int(m.group(1)), scn=m.group(2), i=int(m.group(3)), tag=m.group(4), finding=m.group(5))
-             for m in VIOL_RE.finditer(out)]
+    viols = parse_viols(out)
     hits = {}
     m = HITS_RE.search(out)
     if m:
